@@ -26,6 +26,8 @@ M = [
  ("M-20", "C20", "src/raw_node.rs", "        if is_local_msg(m.get_msg_type()) {\n            return Err(Error::StepLocalMsg);\n        }", "        if is_local_msg(m.get_msg_type()) && m.get_msg_type() != MessageType::MsgUnreachable {\n            return Err(Error::StepLocalMsg);\n        }", "MsgUnreachable from the network is accepted"),
 ]
 
+ALT = {'M-13': ['C20', 'C18']}
+
 def sh(cmd, **kw):
     return subprocess.run(cmd, shell=True, capture_output=True, text=True, **kw)
 
@@ -52,6 +54,12 @@ def main():
                 print('     ', l[:300])
             if r.returncode == 2:
                 print(r.stderr[-600:])
+            if status == 'MISSED':
+                # which other property's check reports it?
+                for alt in ALT.get(mid, []):
+                    r2 = sh(f'cd /verif && VERIF_REPLAY_DIR=/tmp/mutant-replays ./check {alt} --tier quick')
+                    l2 = [l for l in r2.stdout.splitlines() if l.startswith('violation in run')]
+                    print(f'      alt {alt}: rc={r2.returncode} {l2[0][:220] if l2 else ""}')
             results.append((mid, prop, status))
         finally:
             sh('git -C /repo checkout -- .')
